@@ -4,6 +4,7 @@ import (
 	"fmt"
 	"go/ast"
 	"go/token"
+	"go/types"
 	"sort"
 	"strings"
 
@@ -19,7 +20,7 @@ func newEnc(w *World, f *ssa.Function, info *passInfo, opts *EncOpts) *enc {
 	e := &enc{w: w, f: f, key: funcKey(f), names: map[ssa.Value]string{}, heap: hstate{}, heapSort: map[string]string{}, ver: map[string]int{},
 		reach: map[*ssa.BasicBlock]string{}, heapAt: map[*ssa.BasicBlock]hstate{}, heapIn: map[*ssa.BasicBlock]hstate{}, locs: map[ssa.Value]loc{},
 		notes: map[string]int{}, declared: map[string]bool{}, ordCount: map[string]int{}, info: info, localAlloc: map[string]bool{},
-		assumptions: map[string]bool{}, callOrd: map[string]int{}, opts: opts, usedSpecs: map[string]bool{}, usedSites: map[string]bool{}}
+		assumptions: map[string]bool{}, callOrd: map[string]int{}, opts: opts, usedSpecs: map[string]bool{}, usedSites: map[string]bool{}, taint: map[ssa.Value][2]string{}, invDone: map[string]bool{}}
 	e.rec = &passInfo{arrays: map[string]string{}, writes: map[ssa.Instruction][]string{}}
 	e.fc = w.CS.Funcs[e.key]
 	if e.fc != nil {
@@ -169,6 +170,12 @@ func (e *enc) run() (ok bool) {
 	for _, fv := range f.FreeVars {
 		e.val(fv)
 	}
+	if f.Signature.Recv() != nil && len(f.Params) > 0 {
+		if _, ok := f.Params[0].Type().Underlying().(*types.Pointer); ok {
+			// pointer receivers are non-nil: checked at every static call site (safe:nil-recv)
+			e.assume(fmt.Sprintf("(not (= %s 0))", e.val(f.Params[0])))
+		}
+	}
 	e.entryAssumptions()
 	e.entryAt = len(e.asserts)
 	for _, b := range e.order {
@@ -231,7 +238,14 @@ func (e *enc) mergeInto(b *ssa.BasicBlock, r string) {
 	if isHeader {
 		all, mod = e.loopWrites(b)
 	}
-	for _, a := range arrs {
+	arrs = append([]string{"G_now"}, arrs...) // clock first (see havocHeap)
+	for k, a := range arrs {
+		if a == "G_now" && k > 0 {
+			continue
+		}
+		if _, known := e.heapSort[a]; !known {
+			continue
+		}
 		if isHeader && (mod[a] || (all && (!isGhostArr(a) || a == "G_now"))) {
 			// havoc at loop head; G_now only grows
 			var lo string
@@ -367,6 +381,14 @@ func (e *enc) paramEnv() *cenv {
 }
 
 func (e *enc) entryAssumptions() {
+	// a function is entered with no lock of this thread's lock set held, unless its contract says otherwise
+	if e.fc == nil || e.fc.Opts["locks-at-entry"] == "" {
+		for _, g := range []string{"G_held", "G_rheld"} {
+			e.harr(g, "(Array Ref Bool)")
+			e.entry[g] = e.heap[g]
+			e.assume(fmt.Sprintf("(= %s ((as const (Array Ref Bool)) false))", e.hnameIn(g, e.entry)))
+		}
+	}
 	if e.fc == nil {
 		return
 	}
